@@ -170,9 +170,11 @@ def run_shard(spec, acc):
         sa_, sb_ = rng.sample(sources, 2)
         claims[sa_] = claims[sa_] + [hist.claim_name(box_u, box_m, inst_lo=0, function=130, dev_class=25)]
         claims[sb_] = claims[sb_] + [hist.claim_name(box_u, box_m, inst_lo=1, inst_hi=3, function=150, dev_class=75)]
-        # NAMEs of every kind: sub-fields at their 'not available' codes, random bits
+        # NAMEs of every kind: sub-fields at their 'not available' codes, random bits; and for two sources a NAME that is refused
         for sx in sources:
             claims[sx] = claims[sx] + [hist.pick_name(rng, MFRS)]
+        for sx in sources[:2]:
+            claims[sx] = claims[sx] + [hist.refused_name(rng, MFRS)]
         unclaimed = rng.choice(sources) if rng.random() < 0.5 else None
         if unclaimed:
             claims[unclaimed] = []
@@ -187,6 +189,13 @@ def run_shard(spec, acc):
         handed_out = []               # (position, message, identity it was returned with)
         for pos, ev in enumerate(events):
             kind, r = hist.safe_feed_any(dec, ev, rng) if c % 2 else hist.safe_feed(dec, ev)
+            if ev.tag == "claim" and int.from_bytes(ev.data, "little") in hist.REFUSED_NAMES:
+                # a claim with an out-of-range field: refused like any such frame (or, if a library accepts it, not judged);
+                # the address keeps the identity it had
+                acc.count("refused_claims_in_histories")
+                if kind != "exc":
+                    ident[ev.src] = int.from_bytes(ev.data, "little") if not claim_filtered or r is not None else ident.get(ev.src)
+                continue
             if kind == "exc":
                 bad = (pos, "decoder-raised", r)
                 break
